@@ -251,6 +251,9 @@ func main() {
 			of := filepath.Join(work, fmt.Sprintf("res-%d.json", i))
 			cmd := exec.Command(instr, "-prop", id, "-tier", tier, "-shard", strconv.Itoa(i), "-shards", strconv.Itoa(nw),
 				"-deadline", strconv.Itoa(deadline), "-traces", "60", "-out", of)
+			if only := os.Getenv("VERIF_PROFILE"); only != "" { // development aid: one profile, no evidence file
+				cmd.Args = append(cmd.Args, "-profile", only)
+			}
 			cmd.Env = append(os.Environ(), "GOMAXPROCS=1", "VERIF_VIEW="+viewBin)
 			var buf bytes.Buffer
 			cmd.Stdout, cmd.Stderr = &buf, &buf
@@ -636,7 +639,9 @@ func main() {
 	}
 	os.MkdirAll(filepath.Join(verifDir, "evidence"), 0o755)
 	eb, _ := json.MarshalIndent(ev, "", " ")
-	if err := os.WriteFile(filepath.Join(verifDir, "evidence", id+".json"), eb, 0o644); err != nil {
+	if os.Getenv("VERIF_PROFILE") != "" {
+		fmt.Println("(VERIF_PROFILE set: partial run, evidence file not written)")
+	} else if err := os.WriteFile(filepath.Join(verifDir, "evidence", id+".json"), eb, 0o644); err != nil {
 		die(2, "%v", err)
 	}
 
